@@ -1,4 +1,3 @@
-import numpy as np
 import torch
 
 from kappadata.datasets.kd_subset import KDSubset
@@ -20,7 +19,8 @@ class OversamplingWrapper(KDSubset):
                 # if class is not contained in dataset -> cant multiply sample
                 if class_counts[i] == 0:
                     continue
-                multiply_factor = int(np.floor(max_class_count / class_counts[i])) - 1
+                # integer division: int / tensor is evaluated in float32 as reciprocal * int (41 / 41 < 1)
+                multiply_factor = max_class_count // class_counts[i].item() - 1
                 if multiply_factor > 0:
                     # get indices of samples with class to oversample
                     all_indices = torch.arange(len(dataset), dtype=torch.long)
